@@ -604,6 +604,26 @@ func (t *tokenizer) skipBlobHelper() error {
 
 	// https://github.com/amzn/ion-go/issues/115
 	for c != '}' {
+		switch c {
+		case '"':
+			// A short clob: its quoted content may contain a '}'.
+			if err := t.skipStringHelper(); err != nil {
+				return err
+			}
+
+		case '\'':
+			// A long clob: skip its triple-quoted segments, which may contain a '}'.
+			ok, err := t.IsTripleQuote()
+			if err != nil {
+				return err
+			}
+			if ok {
+				if err := t.skipLongStringHelper(t.ensureNoCommentsHandler); err != nil {
+					return err
+				}
+			}
+		}
+
 		c, _, err = t.skipLobWhitespace()
 		if err != nil {
 			return err
